@@ -119,7 +119,11 @@ fn draw_pair(rng: &mut Rng, c: &CaseDesc, dmin: f64, dmax: f64, inclusive: bool,
     if wide {
         // at least a tenth of the span (uniformity cases)
         let w = span * (0.1 + 0.9 * rng.unit_f64());
-        let lo = dmin + (span - w) * rng.unit_f64();
+        let lo = match rng.below(8) {
+            0 => dmin,             // touches the lower boundary
+            1 => dmax - w,         // touches the upper boundary
+            _ => dmin + (span - w) * rng.unit_f64(),
+        };
         let (lo, hi) = (rt(c, lo), rt(c, lo + w));
         return (lo, hi.min(rt(c, dmax)).max(next_up(c, lo, 8)));
     }
@@ -290,7 +294,10 @@ impl C19 {
                     hi[j] = b;
                 }
                 Kind::CylR | Kind::ConeH | Kind::ConeR(_) => {
-                    let (a, b) = draw_pair(rng, c, dmin, dmax, inclusive, wide, true);
+                    // cylinder radii (chroma, colorfulness) have no upper bound in palette: a share of the ranges
+                    // lies partly or wholly beyond the nominal maximum (Lch chroma 150..170 is a legitimate request)
+                    let top = if c.kinds[j] == Kind::CylR && !wide && rng.chance(1, 8) { 2.0 * dmax } else { dmax };
+                    let (a, b) = draw_pair(rng, c, dmin, top, inclusive, wide, true);
                     lo[j] = a;
                     hi[j] = b;
                 }
@@ -344,6 +351,8 @@ impl C19 {
     }
 }
 
+const UNIFORMITY_ARMS: u64 = 7;
+
 impl World for C19 {
     type Plan = Plan;
 
@@ -354,9 +363,11 @@ impl World for C19 {
     /// The front of the index space holds the volume-uniformity cases: every
     /// case x {Standard, Uniform, Uniform inclusive, ...} with drawn wide ranges.
     fn enumerated(&self, tier: Tier) -> u64 {
+        // one uniformity case per (case, constructor) arm in the quick tier: Standard, new, new_inclusive,
+        // sample_single, sample_single_inclusive, plus the nominal full range through new and new_inclusive
         let per_case = match tier {
-            Tier::Quick => 2,
-            Tier::Thorough => 12,
+            Tier::Quick => UNIFORMITY_ARMS,
+            Tier::Thorough => UNIFORMITY_ARMS * 3,
         };
         self.cases.len() as u64 * per_case
     }
@@ -372,12 +383,17 @@ impl World for C19 {
         let ncases = self.cases.len() as u64;
         let uniformity = index < self.enumerated(tier);
         let c = self.cases[(index % ncases) as usize];
+        let arm = (index / ncases) % UNIFORMITY_ARMS;
+        // arms 5 and 6: the exact nominal full range (hue 0..360), the usual call, where a fast path keyed on
+        // lo == min / hi == max / span == 360 would live
+        let full_range = uniformity && arm >= 5;
         let dist = if uniformity {
-            match (index / ncases) % 4 {
+            match arm {
                 0 => Dist::Standard,
-                1 => Dist::Uniform { inclusive: false },
-                2 => Dist::Uniform { inclusive: true },
-                _ => Dist::Uniform { inclusive: rng.chance(1, 2) },
+                1 | 5 => Dist::Uniform { inclusive: false },
+                2 | 6 => Dist::Uniform { inclusive: true },
+                3 => Dist::Single { inclusive: false },
+                _ => Dist::Single { inclusive: true },
             }
         } else {
             match rng.below(20) {
@@ -389,7 +405,30 @@ impl World for C19 {
             }
         };
         let inclusive = matches!(dist, Dist::Uniform { inclusive: true } | Dist::Single { inclusive: true });
-        let (lo, hi) = if dist == Dist::Standard { ([0.0; 4], [0.0; 4]) } else { self.gen_ends(rng, c, inclusive, uniformity) };
+        // "between a color and itself" (and "all components but one equal"): too rare as a product of
+        // per-component coincidences, so it gets a mode of its own
+        let equal_mode = if inclusive && !uniformity && rng.chance(1, 25) { 1 + rng.below(2) as u8 } else { 0 };
+        let (lo, hi) = if dist == Dist::Standard {
+            ([0.0; 4], [0.0; 4])
+        } else if full_range {
+            let (mut lo, mut hi) = ([0.0; 4], [0.0; 4]);
+            for j in 0..c.n {
+                lo[j] = rt(c, c.dom[j].0);
+                hi[j] = rt(c, c.dom[j].1);
+            }
+            (lo, hi)
+        } else {
+            let (lo, mut hi) = self.gen_ends(rng, c, inclusive, uniformity);
+            if equal_mode > 0 && !c.kinds[..c.n].iter().any(|k| matches!(k, Kind::HwbW | Kind::HwbB)) {
+                let keep = if equal_mode == 2 { Some(rng.below(c.n as u64) as usize) } else { None };
+                for j in 0..c.n {
+                    if Some(j) != keep {
+                        hi[j] = lo[j];
+                    }
+                }
+            }
+            (lo, hi)
+        };
         let entropy = gen_entropy(rng, uniformity);
         let samples = if uniformity {
             match tier {
@@ -566,6 +605,8 @@ struct Judge<'d> {
     /// the same for the bicone height, in units of its resolution and in ulps
     max_excess_bicone: f64,
     max_excess_bicone_ulps: f64,
+    /// Standard samples outside the case table's literal domain (informational, see `contain`)
+    outside_table_domain: u64,
 }
 
 impl<'d> Judge<'d> {
@@ -581,12 +622,19 @@ impl<'d> Judge<'d> {
                 if !x.is_finite() {
                     return Err(("standard-finite", j, format!("component {j} = {x:?}")));
                 }
-                if c.exact[j] || c.kinds[j] == Kind::Alpha {
-                    let (a, b) = if c.kinds[j] == Kind::Alpha { (0.0, 1.0) } else { c.dom[j] };
-                    // the accessor values are rounded to the component type
-                    let (a, b) = (rt(c, a), rt(c, b));
+                // "Within the bounds of its space" is palette's own `is_within_bounds()` (judged above). The
+                // literal domains of the case table are NOT demanded: a hue is an angle (any representative),
+                // Lch chroma and CAM16 colorfulness have no upper bound in palette, the CAM16-UCS a/b and
+                // Oklab ranges are documented as estimates. A component outside the table's domain is only
+                // counted.
+                if c.kinds[j] == Kind::Alpha && !(0.0..=1.0).contains(&x) {
+                    // alpha has no `is_within_bounds()` of its own; its space is [0, max_intensity]
+                    return Err(("standard-range", j, format!("alpha = {x:?} outside [0, 1]")));
+                }
+                if c.exact[j] && c.kinds[j] != Kind::Hue {
+                    let (a, b) = (rt(c, c.dom[j].0), rt(c, c.dom[j].1));
                     if x < a || x > b {
-                        return Err(("standard-range", j, format!("component {j} = {x:?} outside [{a:?}, {b:?}]")));
+                        self.outside_table_domain += 1;
                     }
                 }
             }
@@ -609,7 +657,11 @@ impl<'d> Judge<'d> {
                     let (l, span) = hue_arc(lo, hi);
                     let tol = 8.0 * c.eps * lo.abs().max(hi.abs()).max(720.0);
                     let d = (x - l).rem_euclid(360.0);
-                    let on_arc = span >= 360.0 || d <= span + tol || d >= 360.0 - tol;
+                    // raw ends more than a turn apart (10..380): "the arc from the low hue to the high hue" can be
+                    // read modulo a turn ([10, 20], what palette does) or as more than a full turn (every hue):
+                    // either reading is accepted, so nothing is demanded of the hue then
+                    let either_reading = (hi - lo).abs() > 360.0;
+                    let on_arc = either_reading || span >= 360.0 || d <= span + tol || d >= 360.0 - tol;
                     if !on_arc {
                         return Err((
                             "uniform-hue-arc",
@@ -688,7 +740,7 @@ impl<'d> Judge<'d> {
                 Kind::Lin | Kind::Alpha => lin(x, lo, hi),
                 Kind::Hue => {
                     let (l, span) = hue_arc(lo, hi);
-                    if span > 0.0 {
+                    if span > 0.0 && (hi - lo).abs() <= 360.0 {
                         ((x - l).rem_euclid(360.0)) / span.min(360.0)
                     } else {
                         0.5
@@ -788,7 +840,7 @@ fn execute(c: &'static CaseDesc, plan: &Plan, ctx: &mut Ctx<'_>) {
 
     let req = Request { dist, lo: plo, hi: phi, n: plan.samples as usize };
     let mut rng = SimRng::new(&plan.entropy);
-    let mut judge = Judge { c, standard, inclusive, lo: plo, hi: phi, hwb, hit_lo: false, hit_hi: false, max_excess_ulps: 0.0, max_excess_bicone: 0.0, max_excess_bicone_ulps: 0.0 };
+    let mut judge = Judge { c, standard, inclusive, lo: plo, hi: phi, hwb, hit_lo: false, hit_hi: false, max_excess_ulps: 0.0, max_excess_bicone: 0.0, max_excess_bicone_ulps: 0.0, outside_table_domain: 0 };
     if standard {
         for j in 0..c.n {
             judge.lo[j] = if c.kinds[j] == Kind::Alpha { 0.0 } else { c.dom[j].0 };
@@ -835,6 +887,15 @@ fn execute(c: &'static CaseDesc, plan: &Plan, ctx: &mut Ctx<'_>) {
                     ftext(&phi, c.n)
                 ),
             );
+            return;
+        }
+        Caught::Foreign(msg) if !standard && (0..c.n).any(|j| c.kinds[j] == Kind::Hue && rt(c, plo[j]) > rt(c, phi[j])) => {
+            // Raw-descending hue ends (10..-10): palette reads them modulo a turn (the arc from 10 up to 350)
+            // and samples; a sampler that instead refuses them the way `rand` refuses `low >= high` draws no
+            // color at all, which the property does not forbid. Only a sample off the arc is a violation.
+            ctx.checked();
+            ctx.probe("raw-descending-hue-ends-refused");
+            ev!(ctx, "constructor refused raw-descending hue ends: {msg}");
             return;
         }
         Caught::Foreign(msg) => {
@@ -914,6 +975,14 @@ fn execute(c: &'static CaseDesc, plan: &Plan, ctx: &mut Ctx<'_>) {
         );
         return;
     }
+    if judge.outside_table_domain > 0 {
+        ctx.extra("standard-samples-outside-the-case-table-domain", judge.outside_table_domain);
+    }
+    // The property promises volume-uniformity for the cone and bicone shaped spaces (HSV, HSL, HWB, their Ok
+    // counterparts, and HSLuv, which palette samples as a bicone). For the other shapes (cartesian boxes,
+    // cylinders, bare hues) the same statistic is computed and logged, but a deviation is NOT a violation: a
+    // cylinder sampled uniformly in chroma instead of chroma^2 still does everything the property states.
+    let fatal_shape = matches!(c.shape, "cone" | "bicone" | "hwb");
     if plan.uniformity && plan.entropy.is_fair() && drawn >= 1000 {
         // equal ends carry no distribution
         let degenerate: Vec<bool> = (0..c.n).map(|j| !standard && judge.lo[j] == judge.hi[j] && !matches!(c.kinds[j], Kind::HwbW | Kind::HwbB)).collect();
@@ -925,7 +994,11 @@ fn execute(c: &'static CaseDesc, plan: &Plan, ctx: &mut Ctx<'_>) {
             let (chi, p) = chi_square_uniform(&bins1[j]);
             ev!(ctx, "uniformity comp {j}: chi2={chi:.2} p={p:.3e}");
             ctx.extra("uniformity-tests", 1);
-            if p < 1e-9 {
+            if p < 1e-9 && !fatal_shape {
+                ctx.extra("non-uniform-but-not-promised-uniform", 1);
+                ev!(ctx, "  (informational: {} is not a cone or bicone shaped space)", c.shape);
+            }
+            if p < 1e-9 && fatal_shape {
                 ctx.fail(
                     &format!("volume-uniformity:{dist_name}"),
                     &format!("volume-uniformity:{}:{dist_name}", c.name),
@@ -943,7 +1016,10 @@ fn execute(c: &'static CaseDesc, plan: &Plan, ctx: &mut Ctx<'_>) {
                 let (chi, p) = chi_square_uniform(&bins2[p_i]);
                 ev!(ctx, "uniformity pair ({a},{b}): chi2={chi:.2} p={p:.3e}");
                 ctx.extra("uniformity-tests", 1);
-                if p < 1e-9 {
+                if p < 1e-9 && !fatal_shape {
+                    ctx.extra("non-uniform-but-not-promised-uniform", 1);
+                }
+                if p < 1e-9 && fatal_shape {
                     ctx.fail(
                         &format!("volume-uniformity:{dist_name}"),
                         &format!("volume-uniformity:{}:{dist_name}", c.name),
